@@ -1,15 +1,25 @@
 """py2coq emitters for C06: the nested function `log2_regression` of Engine.price (rpylib/montecarlo/multilevel/engine.py)
-and its three call sites.  Fail-closed: every statement that is not translated by the generic py2coq machinery must be
-TEXTUALLY the statement this model was written for (ast.unparse), otherwise Unsupported -> broken obligation.
+and the rate / statistics bookkeeping of the adaptive loop.
 
+log2_regression (emitter `log2_regression`)
   mat = np.ones((L, 2)); mat[:, 0] = range(1, L + 1)                      design matrix: rows (level, 1), levels 1..L
   with np.errstate(divide='ignore'):
-      x = np.linalg.lstsq(mat, np.log2(regress_to[1:]), rcond=None)[0]     -> let x0 := log2_slope (tl regress_to)
-                                                                              (hand model Model/Regress.v: minimum-norm least squares
-                                                                               of log2 of the sliced observations against levels 1..)
-  res = max(max_val, -x[0]); return res                                   -> translated by py2coq (x[0] reads x0)
-The default of max_val and the guards/arguments of the call sites (`if alpha_0 is None: alpha = log2_regression(ml)` ...)
-are emitted as separate definitions so that a change there is seen as well."""
+      x = np.linalg.lstsq(mat, np.log2(regress_to[1:]), rcond=None)[0]     -> match log2_slope_np (tl regress_to) with
+                                                                              (hand model Model/Regress.v: Some (minimum-norm least squares
+                                                                               slope of log2 of the sliced observations against levels 1..),
+                                                                               None when an observation is not positive: numpy's x is nan)
+  res = max(max_val, -x[0]); return res                                   -> Some x0: translated by py2coq (x[0] reads x0)
+                                                                             None   : Python's max(max_val, nan) = max_val (text pinned)
+  These three head statements are pinned TEXTUALLY (fail closed).
+
+loop body (emitter `call_sites`, wave 7 / audit-4 top-10 #9): a SYMBOLIC EXECUTION of the statements of Engine.price in source
+order, not a membership test.  Every statement of the prologue that touches a rate and EVERY statement of the `while` body must be
+in the statement table below; each table entry says what it does to the tracked variables (alpha, beta, gamma, ml, vl, cl): a
+Gallina `let x := ... in` line (the variable is shadowed, as the Python variable is overwritten), a recorded call site, or
+nothing (statements that are modelled by hand in Model/Mlmc.v and replayed there).  The definitions emitted for the call sites
+(arguments of the two compute_mc_paths calls, of the bias test, and the rates carried into the next pass) are the let-prefix
+accumulated up to that statement: an extra statement is refused (Unsupported -> broken obligation), a re-ordering changes the
+emitted term (the `_spec` lemmas of Proofs/C06_Tied.v then fail), a different argument changes the term."""
 import ast
 
 import py2coq
@@ -20,6 +30,7 @@ EXPECTED_HEAD = [
     "mat[:, 0] = range(1, L + 1)",
     "with np.errstate(divide='ignore'):\n    x = np.linalg.lstsq(mat, np.log2(regress_to[1:]), rcond=None)[0]",
 ]
+EXPECTED_TAIL = ["res = max(max_val, -x[0])", "return res"]      # needed for the nan path only (builtin max keeps max_val)
 
 
 def _nested(tree):
@@ -44,43 +55,189 @@ def log2_regression(tree, spec, fn):
         raise Unsupported(f"log2_regression: the construction of the least-squares system changed: {got}")
     if not rest:
         raise Unsupported("log2_regression: nothing after the least-squares call")
+    if [src(s) for s in rest] != EXPECTED_TAIL:
+        raise Unsupported(f"log2_regression: what happens to a nan slope is only known for `{EXPECTED_TAIL}`, found {[src(s) for s in rest]}")
     ctx = py2coq.Ctx(spec, dict(fn, subst={"x[0]": "x0"}))
     tail = py2coq.block(ctx, rest, None, None)
     dflt = py2coq.lit(ctx, a.defaults[0].value)
     return (f"Definition {fn['coq']} (regress_to : list R) (max_val : R) : R :=\n"
-            f"  let x0 := (log2_slope (tl regress_to)) in\n  {tail}.\n\n"
+            f"  match log2_slope_np (tl regress_to) with\n"
+            f"  | Some x0 => {tail}\n"
+            f"  | None => max_val\n  end.\n\n"
             f"Definition {fn['coq']}_default_max_val : R := {dflt}.\n")
 
 
+# ---------------------------------------------------------------------------------------------- the loop body
+RATES = (("alpha", "ml"), ("beta", "vl"), ("gamma", "cl"))
+TRACKED = {"alpha", "beta", "gamma", "ml", "vl", "cl"}
+WATCH = TRACKED | {"alpha_0", "beta_0", "gamma_0", "cr", "log2_regression"}
+PARAMS = ("(cfg_alpha cfg_beta cfg_gamma : option R) (alpha beta gamma : R) (ml vl cl : list R)")
+CM = "self.configuration.convergence_criteria"
+
+# statements without effect on the tracked variables: hand-modelled in Model/Mlmc.v (Nl, dNl, sum_cost, statistics, processes)
+NEUTRAL = {
+    "self.statistics.set_mlmc_results(Nl, sum_cost)",
+    "dNl = np.maximum(0, Ns - Nl)",
+    "if has_converged or L == level_max:\n    self.statistics.set_mlmc_results(Nl=Nl, sum_cost=sum_cost)\n    return self.statistics",
+    "Nl = np.append(Nl, 0)",
+    "sum_cost = np.append(sum_cost, 0.0)",
+    "next_process = copy.deepcopy(ml_processes[-1])",
+    "next_process.reset_one_simulation_cost()",
+    "next_process.next_level(dNl[-1], self.path_managers, product=product)",
+    "ml_processes.append(next_process)",
+    "self.statistics.extend(Nl + dNl)",
+}
+WORKAROUND = ("for level in range(3, L + 1):\n    ml[level] = np.maximum(ml[level], 0.5 * ml[level - 1] / 2 ** alpha)\n"
+              "    vl[level] = np.maximum(vl[level], 0.5 * vl[level - 1] / 2 ** beta)")
+PROLOGUE = ["cr = self.configuration.convergence_rates", "alpha_0, beta_0, gamma_0 = (cr.alpha, cr.beta, cr.gamma)"]
+
+
+def _names(node):
+    return {n.id for n in ast.walk(node) if isinstance(n, ast.Name)}
+
+
+def _only_logging(stmts):
+    for s in stmts:
+        if isinstance(s, ast.If) and not s.orelse:
+            if not _only_logging(s.body):
+                return False
+        elif not (isinstance(s, ast.Expr) and isinstance(s.value, ast.Call) and src(s.value.func).startswith("logging.")):
+            return False
+    return True
+
+
+class _Sym:
+    """straight-line symbolic execution: `lets` is the accumulated prefix of `let x := e in` lines"""
+
+    def __init__(self):
+        self.lets = []
+        self.sites = {}          # name -> (prefix of lets, tuple of result expressions)
+        self.fresh = False       # ml, vl, cl have been read from the statistics of this pass
+        self.level_added = False
+        self.alloc_calls = 0
+
+    def let(self, var, expr):
+        self.lets.append(f"let {var} := {expr} in")
+
+    def site(self, name, exprs):
+        if name in self.sites:
+            raise Unsupported(f"Engine.price: call site {name} occurs twice")
+        self.sites[name] = (list(self.lets), exprs)
+
+    def stmt(self, s, inner):
+        t = src(s)
+        if t in NEUTRAL:
+            return
+        if t == "L += 1":
+            self.level_added = True
+            return
+        for arr in ("ml", "vl", "cl"):
+            if t == f"{arr} = self.statistics.mlmc_results.{arr}":
+                if self.level_added:
+                    raise Unsupported("Engine.price: statistics re-read after the level was added")
+                self.let(arr, f"stat_{arr}")
+                self.read.add(arr)
+                return
+        if t == WORKAROUND:
+            if self.level_added or self.read != {"ml", "vl", "cl"}:
+                raise Unsupported("Engine.price: the work-around does not follow the reading of ml, vl, cl (or L has changed)")
+            self.let("ml", "ml_after_workaround alpha ml")
+            self.let("vl", "vl_after_workaround beta vl")
+            return
+        for rate, arr in RATES:
+            if t == f"if {rate}_0 is None:\n    {rate} = log2_regression({arr})":
+                self.let(rate, f"{rate}_of_pass cfg_{rate} {rate} {arr}")
+                return
+        if t == f"Ns = {CM}.compute_mc_paths(rmse, vl, cl)":
+            self.alloc_calls += 1
+            self.site("pass_alloc" if not self.level_added else "new_level_alloc", ("vl", "cl"))
+            return
+        if isinstance(s, ast.If) and src(s.test) == "Ns[0] > 10000000" and not s.orelse and _only_logging(s.body):
+            return
+        if t == f"has_converged = {CM}.criteria(alpha, ml, rmse)":
+            self.site("pass_bias", ("alpha", "ml"))
+            return
+        if t == "vl = np.append(vl, vl[-1] / 2 ** beta)":
+            if not self.level_added:
+                raise Unsupported("Engine.price: vl extended before L += 1")
+            self.let("vl", "vl_extended beta vl")
+            return
+        if t == "cl = np.append(cl, cl[-1] * 2 ** gamma)":
+            if not self.level_added:
+                raise Unsupported("Engine.price: cl extended before L += 1")
+            self.let("cl", "cl_extended gamma cl")
+            return
+        if isinstance(s, ast.If) and src(s.test) == "np.sum(dNl[dNl > 0.01 * Nl]) == 0" and not s.orelse and not inner:
+            for x in s.body:
+                self.stmt(x, True)
+            return
+        raise Unsupported(f"Engine.price: statement of the adaptive loop outside the translated table: `{t[:160]}`")
+
+
 def call_sites(tree, spec, fn):
-    """the three uses inside the while loop: `if <rate>_0 is None: <rate> = log2_regression(<array>)` with the default max_val,
-    and the initial values `<rate> = 0 if <rate>_0 is None else <rate>_0`.  Emits, for each rate, the value the loop variable
-    takes in a pass as a function of the configured rate (option R), the previous value and the array."""
-    price, _ = _nested(tree)
-    text = {src(s) for s in ast.walk(price) if isinstance(s, ast.stmt)}
+    price, nested = _nested(tree)
+    body = [s for s in price.body if not (isinstance(s, ast.Expr) and isinstance(s.value, ast.Constant))]
+    whiles = [i for i, s in enumerate(body) if isinstance(s, ast.While)]
+    if len(whiles) != 1 or src(body[whiles[0]].test) != "np.sum(dNl) > 0" or body[whiles[0]].orelse:
+        raise Unsupported("Engine.price: expected exactly one `while np.sum(dNl) > 0:` without else")
+    w = body[whiles[0]]
     out = []
-    for rate, arr in (("alpha", "ml"), ("beta", "vl"), ("gamma", "cl")):
-        init = f"{rate} = 0 if {rate}_0 is None else {rate}_0"
-        use = f"if {rate}_0 is None:\n    {rate} = log2_regression({arr})"
-        if init not in text:
-            raise Unsupported(f"Engine.price: initial value of {rate} changed (expected `{init}`)")
-        if use not in text:
-            raise Unsupported(f"Engine.price: use of log2_regression for {rate} changed (expected `{use}`)")
-        out.append(f"Definition {rate}_initial (configured : option R) : R :=\n"
-                   f"  match configured with None => (IZR 0) | Some r => r end.\n"
-                   f"Definition {rate}_of_pass (configured : option R) (previous : R) ({arr} : list R) : R :=\n"
+    # ---- prologue: the configured rates and the initial values; nothing else may mention a rate / a statistic
+    seen = []
+    for s in body[:whiles[0]]:
+        if s is nested:
+            continue
+        t = src(s)
+        if t in PROLOGUE:
+            seen.append(t)
+            continue
+        hit = False
+        for rate, _ in RATES:
+            if (isinstance(s, ast.Assign) and len(s.targets) == 1 and src(s.targets[0]) == rate and isinstance(s.value, ast.IfExp)
+                    and src(s.value.test) == f"{rate}_0 is None" and isinstance(s.value.body, ast.Constant)
+                    and isinstance(s.value.body.value, (int, float)) and src(s.value.orelse) == f"{rate}_0"):
+                if seen[:2] != PROLOGUE:
+                    raise Unsupported(f"Engine.price: {rate} initialised before the configured rates are read")
+                ctx = py2coq.Ctx(spec, fn)
+                out.append(f"Definition {rate}_initial (configured : option R) : R :=\n"
+                           f"  match configured with None => {py2coq.lit(ctx, s.value.body.value)} | Some r => r end.\n")
+                seen.append(rate)
+                hit = True
+        if not hit and _names(s) & WATCH:
+            raise Unsupported(f"Engine.price: statement before the loop touches a rate / statistic outside the table: `{t[:160]}`")
+    if seen != PROLOGUE + [r for r, _ in RATES]:
+        raise Unsupported(f"Engine.price: prologue of the rates changed: {seen}")
+    for s in body[whiles[0] + 1:]:
+        if _names(s) & WATCH:
+            raise Unsupported(f"Engine.price: statement after the loop touches a rate / statistic: `{src(s)[:160]}`")
+    # ---- the statement-level translation units (what ONE recognised statement does)
+    for rate, arr in RATES:
+        out.append(f"Definition {rate}_of_pass (configured : option R) (previous : R) ({arr} : list R) : R :=\n"
                    f"  match configured with None => log2_regression {arr} log2_regression_default_max_val | Some _ => previous end.\n")
-    # the work-around that precedes the regressions, on the arrays the regressions then read
-    wa = ("for level in range(3, L + 1):\n    ml[level] = np.maximum(ml[level], 0.5 * ml[level - 1] / 2 ** alpha)\n"
-          "    vl[level] = np.maximum(vl[level], 0.5 * vl[level - 1] / 2 ** beta)")
-    if wa not in text:
-        raise Unsupported("Engine.price: the ml/vl work-around changed")
     out.append("Definition ml_after_workaround (alpha : R) (ml : list R) : list R := workaround (Rpower (IZR 2) alpha) ml.\n"
                "Definition vl_after_workaround (beta : R) (vl : list R) : list R := workaround (Rpower (IZR 2) beta) vl.\n")
-    # extrapolated statistics of the level that is added
-    for stmt in ("vl = np.append(vl, vl[-1] / 2 ** beta)", "cl = np.append(cl, cl[-1] * 2 ** gamma)"):
-        if stmt not in text:
-            raise Unsupported(f"Engine.price: extrapolation of the new level changed (expected `{stmt}`)")
     out.append("Definition vl_extended (beta : R) (vl : list R) : list R := vl ++ (last vl (IZR 0) / Rpower (IZR 2) beta) :: nil.\n"
                "Definition cl_extended (gamma : R) (cl : list R) : list R := cl ++ (last cl (IZR 0) * Rpower (IZR 2) gamma) :: nil.\n")
+    # ---- the while body, in source order
+    stmts = list(w.body)
+    if not (stmts and isinstance(stmts[0], ast.For) and src(stmts[0].target) == "level" and src(stmts[0].iter) == "range(L + 1)"
+            and not stmts[0].orelse):
+        raise Unsupported("Engine.price: the loop body does not start with the simulation `for level in range(L + 1):`")
+    if _names(stmts[0]) & WATCH:
+        raise Unsupported("Engine.price: the simulation loop mentions a rate / statistic")
+    sym = _Sym()
+    sym.read = set()
+    for s in stmts[1:]:
+        sym.stmt(s, False)
+    want = {"pass_alloc", "pass_bias", "new_level_alloc"}
+    if set(sym.sites) != want or sym.alloc_calls != 2:
+        raise Unsupported(f"Engine.price: call sites found {sorted(sym.sites)} (compute_mc_paths x{sym.alloc_calls}), expected {sorted(want)}")
+    sym.site("pass_next", ("alpha", "beta", "gamma"))
+    par = PARAMS.replace("(ml vl cl : list R)", "(stat_ml stat_vl stat_cl : list R)")
+    proj = {"pass_alloc": ("V", "C"), "new_level_alloc": ("V", "C"), "pass_bias": ("alpha", "ml"), "pass_next": ("alpha", "beta", "gamma")}
+    for name in ("pass_alloc", "pass_bias", "new_level_alloc", "pass_next"):
+        lets, exprs = sym.sites[name]
+        for tag, e in zip(proj[name], exprs):
+            ty = "R" if e in ("alpha", "beta", "gamma") else "list R"
+            out.append(f"Definition {name}_{tag} {par} : {ty} :=\n  " + "\n  ".join(lets) + f"\n  {e}.\n")
     return "\n".join(out)
